@@ -1260,8 +1260,8 @@ func (s *c01Sched) restart(x int) {
 	s.dump(x)
 }
 
-// maybeRestart restarts every restartable node (always, or with probability
-// 1/2 per node).
+// maybeRestart restarts the restartable nodes: one with a pending remote
+// commitment always (or with probability 1/2), one without now and then.
 func (s *c01Sched) maybeRestart(always bool) {
 	xs := []int{0, 1}
 	if s.r.Intn(2) == 0 {
@@ -1271,7 +1271,16 @@ func (s *c01Sched) maybeRestart(always bool) {
 		if s.dead {
 			return
 		}
-		if s.restartable(x) && (always || s.r.Intn(2) == 0) {
+		if !s.restartable(x) {
+			continue
+		}
+		// the interesting restarts are the ones with a signed, not yet revoked
+		// remote commitment (the others are C02's daily bread)
+		if s.p.Ch[x].commitChains.Remote.hasUnackedCommitment() {
+			if always || s.r.Intn(2) == 0 {
+				s.restart(x)
+			}
+		} else if s.r.Intn(5) == 0 {
 			s.restart(x)
 		}
 	}
@@ -1436,10 +1445,10 @@ func TestVerifC01(t *testing.T) {
 	defer w.Flush()
 
 	perKind, maxSteps, maxAdds := 24, 50, 8
-	perPipe, pipeTail := 6, 14
+	perPipe, pipeTail := 5, 12
 	if tier == "thorough" {
 		perKind, maxSteps, maxAdds = 120, 130, 14
-		perPipe, pipeTail = 40, 40
+		perPipe, pipeTail = 24, 30
 	}
 	if v, err := strconv.Atoi(os.Getenv("VERIF_C01_CASES")); err == nil && v > 0 {
 		perKind = v
